@@ -218,6 +218,9 @@ struct BSys {
 			for (int shape = 0; shape < 4; ++shape) ops.push_back(OpDef{SETOWN, h, shape, 0, 0});
 			for (int p : {P0, P1, PEND, PPAST}) for (int c = 1; c <= 2; ++c) ops.push_back(OpDef{INS, h, p, c, 0});
 			for (auto pc : {std::make_pair(P0, 1), std::make_pair(P1, 1), std::make_pair(PBEFORE, 1), std::make_pair(P0, 2), std::make_pair(P1, 0), std::make_pair(P0, 0), std::make_pair(PEND, 1)}) ops.push_back(OpDef{CUT, h, pc.first, pc.second, 0});
+			// byte-granular requests on a typed buffer: c=1 offset half an element further (length whole elements), c=2 length half an element longer (offset aligned)
+			for (auto pc : {std::make_pair(P0, 1), std::make_pair(P1, 1), std::make_pair(P0, 2), std::make_pair(P0, 0)}) ops.push_back(OpDef{CUT, h, pc.first, pc.second, 1});
+			for (auto pc : {std::make_pair(P0, 0), std::make_pair(P1, 1)}) ops.push_back(OpDef{CUT, h, pc.first, pc.second, 2});
 			for (int n : {0, 1, 2}) for (int t = 0; t < (kind == K_SERIAL && full ? 5 : 3); ++t) ops.push_back(OpDef{RESERVE, h, n, t, 0});     // n: 0 elements / current / capacity+1 ; t: same / other / untyped / compatible (same finaliser+size) / same finaliser, other size
 			for (auto pc : {std::make_pair(P0, 1), std::make_pair(P0, -1), std::make_pair(PEND, 1), std::make_pair(PPAST, 1)}) ops.push_back(OpDef{SLICE, h, pc.first, pc.second, 0});   // (0,1) / (0,N+1) / (N,1) / (N+1,1)
 			for (int n : {0, 1, 2}) ops.push_back(OpDef{DETACH, h, n, 0, 0});                                    // smaller / equal / larger than capacity
@@ -243,7 +246,8 @@ struct BSys {
 		case BSET: return fmt("h%d.buffer_set(compatible traits,pos=%s,n=1)", o.h, pos_name[o.a]);
 		case SETOWN: { static const char *sn[] = { "off=0,n=2,data=&own[1]", "off=end,n=1,data=&own[0]", "off=0,n=1,data=&own[0]", "off=1,n=1,data=&own[0]" }; return fmt("h%d.array_set(%s)", o.h, sn[o.a]); }
 		case INS: return fmt("h%d.array_insert(pos=%s,n=%d)+construct", o.h, pos_name[o.a], o.b);
-		case CUT: return fmt("h%d.buffer_cut(off=%s,n=%d)", o.h, pos_name[o.a], o.b);
+		case CUT: return o.c ? fmt("h%d.buffer_cut(off=%s%s,n=%d%s) [byte counts, not element aligned]", o.h, pos_name[o.a], o.c == 1 ? "+half" : "", o.b, o.c == 2 ? "+half" : "")
+		                     : fmt("h%d.buffer_cut(off=%s,n=%d)", o.h, pos_name[o.a], o.b);
 		case RESERVE: { static const char *tn[] = { "same traits", "other traits", "untyped", "compatible traits", "traits with the same finaliser but twice the size" };
 			return fmt("h%d.array_reserve(%s,%s)", o.h, o.a == 0 ? "0" : (o.a == 1 ? "N" : "capacity+1"), tn[o.b]); }
 		case SLICE: return o.b < 0 ? fmt("h%d.array_slice(off=0,n=N+1)", o.h) : fmt("h%d.array_slice(off=%s,n=%d)", o.h, pos_name[o.a], o.b);
@@ -577,7 +581,14 @@ struct BSys {
 			ac = o.a == 0 ? "own-source,overlapping" : (o.a == 1 ? "own-source,append" : (o.a == 2 ? "own-source,self" : "own-source,disjoint"));
 			break; }
 		case INS: if (std::max(pos, n) + o.b > maxe) return false; ac = pos > n ? "past-end" : (pos == n ? "append" : "inside"); break;
-		case CUT: if (!b || pos < 0) return false; ac = o.b == 0 ? "truncate" : (pos + o.b > n ? "out-of-range" : (pos + o.b == n ? "inside,to-end" : "inside,tail-kept")); break;
+		case CUT: if (!b || pos < 0) return false; ac = o.b == 0 ? "truncate" : (pos + o.b > n ? "out-of-range" : (pos + o.b == n ? "inside,to-end" : "inside,tail-kept"));
+			if (o.c) {
+				// misaligned requests only where the element grid is the kind's own (typed buffer, used length a whole number of elements)
+				if (b->_content_traits != KT || b->_used % ks) return false;
+				size_t boff = pos * ks + (o.c == 1 ? ks / 2 : 0), blen = o.b * ks + (o.c == 2 ? ks / 2 : 0);
+				ac = std::string(o.c == 1 ? "misaligned-offset" : "misaligned-length") + (o.b == 0 && o.c == 1 ? ",truncate" : (boff + blen > b->_used ? ",out-of-range" : (boff + blen + ks > b->_used ? ",inside,to-end" : ",inside,tail-kept")));
+			}
+			break;
 		case RESERVE: if (o.a == 2 && b && b->_size > 64) return false; ac = std::string(o.b == 0 ? "same-type" : (o.b == 1 ? "other-type" : (o.b == 2 ? "untyped" : (o.b == 3 ? "compatible-type" : "same-finaliser-other-size")))) + (o.a == 2 ? ",grow" : (o.a == 1 ? ",fit" : ",zero")); break;
 		case SLICE: { long cnt = o.b < 0 ? n + 1 : o.b; if (pos + cnt > maxe) return false; ac = pos + cnt <= n ? "inside" : (pos > n ? "grow,past-end" : "grow"); break; }
 		case DETACH: if (!b || (o.a == 2 && b->_size > 64) || (o.a == 0 && !n)) return false; ac = o.a == 0 ? "smaller" : (o.a == 1 ? "equal" : "larger"); break;
@@ -628,7 +639,7 @@ struct BSys {
 			g_active = false;
 			if (ret) construct(hb[h]->_content_traits, ret, o.b * ks, 0);
 			break; }
-		case CUT: refused = LIB(mpt::mpt_buffer_cut(b, pos * ks, o.b * ks)) < 0; break;
+		case CUT: refused = LIB(mpt::mpt_buffer_cut(b, pos * ks + (o.c == 1 ? ks / 2 : 0), o.b * ks + (o.c == 2 ? ks / 2 : 0))) < 0; break;
 		case RESERVE: {
 			size_t len = o.a == 0 ? 0 : (o.a == 1 ? n * ks : (capel + 1) * ks);
 			refused = !LIB(mpt::mpt_array_reserve(H(h), len, o.b == 0 ? KT : (o.b == 1 ? (kind == K_SERIAL ? &T8 : &T16) : (o.b == 2 ? 0 : (o.b == 3 ? KT2 : &T32)))));
@@ -702,6 +713,12 @@ struct BSys {
 		if (o.code == MOVE && ac.find("mismatch") != std::string::npos) { r.count("buffer::move between different element types (accepted or refused)"); r.count(refused ? "buffer::move between different element types: refused" : "buffer::move between different element types: accepted"); }
 		if (o.code == SLICE && g_failed) r.count("array_slice with a failing constructor");
 		if (kind == K_FINI && (o.code == SETOWN || (o.code == SET && o.c))) r.count("finaliser-only elements: array_set with managed source elements (own or foreign)");
+		if (o.code == CUT && o.c) {
+			// the request addresses memory that is no element: whatever the return value, the generic scan above has shown that no
+			// destructor saw non-element memory and every used slot still holds exactly one live element
+			r.count(std::string("buffer_cut on a typed buffer, ") + (o.c == 1 ? "offset" : "length") + " not element aligned" + (refused ? ": refused" : ": accepted"));
+			if (o.c == 1 && o.b > 0 && ac.find("out-of-range") == std::string::npos) r.count("buffer_cut on a typed buffer, offset inside an element, whole-element length in range");
+		}
 		if (o.code == SETOWN) { r.count("array_set with source elements inside the target array"); r.count(std::string("array_set with own source, ") + ac.substr(11) + (refused ? ": refused" : ": done")); }
 		if (o.code == RESERVE && o.b == 4 && !refused && n) r.count("array_reserve to a type with the same finaliser but another size on a non-empty buffer");
 		if (kind == K_FINI && was_shared && n && (refused || hb[h] != b) && (o.code == SET || o.code == INS || o.code == SLICE || o.code == DETACH)) {
@@ -1302,6 +1319,8 @@ static void requires_(Run &r)
 	                       "buffer::move between different element types (accepted or refused)", "array_slice with a failing constructor",
 	                       "array_reserve to a type with the same finaliser but another size on a non-empty buffer",
 	                       "finaliser-only elements: write through a shared handle (private copy made or refused)",
+	                       "buffer_cut on a typed buffer, offset inside an element, whole-element length in range",
+	                       "buffer_cut on a typed buffer, length not element aligned: refused",
 	                       "teardown: last handle gone, nothing alive" })
 		r.require(k);
 	if (r.tier == Thorough) r.require("jobs explored to closure (every reachable bounded state expanded)");
